@@ -319,6 +319,8 @@ impl<F: Function> Worker<'_, F> {
         depth: usize,
         tile: Tile<2>,
     ) {
+        #[cfg(feature = "verif-hooks")]
+        fidget_core::verif::point(fidget_core::verif::Point::SubTile);
         let tile_size = self.tile_sizes[depth];
 
         // Find the interval bounds of the region, in screen coordinates
